@@ -26,7 +26,7 @@ func (a *audienceMember) checkExpr(cfg *config, expSrc string) (expr, error) {
 		return expr{}, err
 	}
 
-	compiledExp, err := govaluate.NewEvaluableExpressionWithFunctions(expSrc, evalFunctions)
+	compiledExp, err := compileExpr(expSrc)
 	if err != nil {
 		return expr{}, err
 	}
@@ -92,6 +92,19 @@ func (a *audienceMember) checkExpr(cfg *config, expSrc string) (expr, error) {
 		e.deps[vn] = struct{}{}
 	}
 	return e, nil
+}
+
+// compileExpr compiles a govaluate expression. The govaluate lexer
+// panics on some malformed inputs (e.g. an expression that ends in a
+// backslash); such a panic is reported as a regular syntax error.
+func compileExpr(expSrc string) (compiled *govaluate.EvaluableExpression, err error) {
+	defer func() {
+		if r := recover(); r != nil {
+			compiled = nil
+			err = errors.Newf("invalid expression syntax: %q (%v)", expSrc, r)
+		}
+	}()
+	return govaluate.NewEvaluableExpressionWithFunctions(expSrc, evalFunctions)
 }
 
 // hasDeps return true when all the dependencies of an expression are satisified.
